@@ -31,6 +31,19 @@ def dObs (c : Cfg DShared DLocal) : DObs :=
 def holdsD (errs : List Bool) (o : DObs) : Bool :=
   o.runs == List.replicate errs.length 1 && o.res == some (failing errs) && o.closed && o.ctx
 
+/-! ### Managers whose shutdown is the latch plus background goroutines (memory storage,
+SessionManager): closed, later calls return normally, nothing left running. -/
+
+structure MObs where
+  closed : Bool
+  afterOk : Bool          -- model: every clean handler ran exactly once; implementation: calls after Close returned
+  leak : Nat
+  deriving DecidableEq, Repr
+
+def mObs (c : Cfg DShared DLocal) : MObs := ⟨c.sh.closed, c.sh.runs.all (· == 1), 0⟩
+
+def holdsM (o : MObs) : Bool := o.closed && o.afterOk && o.leak == 0
+
 /-! ### Tunnel.Close: the close sequence ran exactly once, with the reason of one of the
 callers; the peer was notified iff that reason asks for it; closed and unregistered; nothing
 left running. -/
